@@ -309,6 +309,89 @@ def ob_all_or_nothing(i: int) -> Optional[str]:
     return None
 
 
+# ----------------------------------------------------------------------------
+# names bound by the session (globals, locals, builtins) at the time of *each* compile, across a history of inputs
+# ----------------------------------------------------------------------------
+WHERE = ["builtins", "globals", "locals"]
+WHEN = ["before_first_input", "between_inputs", "bound_then_removed"]
+MODES = ["exec", "single"]
+
+
+def _session_case(where, when, mode, first):
+    """One Execer, two inputs.  The name `vfsessn` is bound in `where` at time `when`; the second input is
+    `vfsessn -l` (valid Python iff both names are bound) - it must stay Python exactly when CPython could run it."""
+    ex = XSH.execer
+    glbs, locs = {"l": 2}, {}
+    name = "vfsessn"
+
+    def put():
+        if where == "builtins":
+            setattr(builtins, name, 40)
+        elif where == "globals":
+            glbs[name] = 40
+        else:
+            locs[name] = 40
+
+    def drop():
+        if where == "builtins":
+            if hasattr(builtins, name):
+                delattr(builtins, name)
+        elif where == "globals":
+            glbs.pop(name, None)
+        else:
+            locs.pop(name, None)
+
+    trees = []
+    real_parse = ex.parse
+
+    def parse(*a, **k):
+        t = real_parse(*a, **k)
+        trees.append(t)
+        return t
+
+    ex.parse = parse
+    try:
+        if when in ("before_first_input", "bound_then_removed"):
+            put()
+        ex.compile(first, mode=mode, glbs=glbs, locs=locs, filename="<vf-c02-1>")
+        if when == "between_inputs":
+            put()
+        if when == "bound_then_removed":
+            drop()
+        src = name + " -l\n"
+        try:
+            ex.compile(src, mode=mode, glbs=glbs, locs=locs, filename="<vf-c02-2>")
+        except SyntaxError as e:
+            return f"session-name-rejected: history {first!r}, then {src!r} with {name} {when} in {where}: SyntaxError {e}"
+    finally:
+        del ex.parse
+        drop()
+    got = _dump(trees[-1])
+    py = _dump(ast.parse(src, mode=mode))
+    bound = when != "bound_then_removed"
+    if bound and got != py:
+        return (f"python-run-as-command: input 1 {first!r}; then `{name}` is bound in the session's {where} ({when}) and input 2 "
+                f"{src!r} (mode {mode}) reads only bound names, but it is not compiled as the Python expression: {got[:160]}")
+    if not bound and got == py:
+        return (f"command-run-as-python: `{name}` was removed from the session's {where} before input 2 {src!r}, "
+                f"which can only mean a command, but it is compiled as Python")
+    return None
+
+
+FIRST_INPUTS = ["1\n", "l = 2\n", "echo hi\n", "# nothing\n"]
+
+
+def ob_session_names(where: int, when: int, mode: int, first: int) -> Optional[str]:
+    if not (0 <= where < 3 and 0 <= when < 3 and 0 <= mode < 2 and 0 <= first < len(FIRST_INPUTS)):
+        raise Skip()
+    r = concretely(_session_case, WHERE[_pick_int(3, where)], WHEN[_pick_int(3, when)], MODES[_pick_int(2, mode)],
+                   FIRST_INPUTS[_pick_int(len(FIRST_INPUTS), first)])
+    if r:
+        k, rest = r.split(":", 1)
+        return viol(k, lambda: rest.strip())
+    return None
+
+
 _WALRUS = [i for i, b in enumerate(BINDERS) if b[0] == "walrus"][0]
 _MATCH = [i for i, b in enumerate(BINDERS) if b[0] == "match_capture"][0]
 
@@ -351,6 +434,11 @@ OBLIGATIONS = [
                region_parts={"C02-walrus-statement-not-binding": lambda p: p.get("binder_i") == _WALRUS,
                              "C02-match-capture-not-binding": lambda p: p.get("binder_i") == _MATCH},
                prepare=_prepare, symbolic="use form, name indices (aliasing pattern)"),
+    Obligation("session_names", ob_session_names,
+               bounds="one Execer, two successive inputs through Execer.compile (exec and single mode, 4 first inputs): a name bound in the session's "
+                      "builtins / globals / locals before the first input, between the inputs, or bound and removed again; the second input "
+                      "`name -l` is compiled as Python exactly when the name is bound at that moment",
+               timeout={"quick": 120, "thorough": 300}, symbolic="where, when, mode, first input (finite choices)"),
     Obligation("all_or_nothing", ob_all_or_nothing, bounds=f"{len(BROKEN)} two-statement inputs whose second statement cannot be parsed",
                pre=["0 <= i < 10"], timeout={"quick": 60, "thorough": 60}, symbolic="input index"),
 ]
